@@ -1071,6 +1071,12 @@ func findPath(g *graphParams, r *RestrictParams, cfg *PathFindingConfig,
 			self, pivot, !isExitHop, outgoingChanMap,
 		)
 
+		// The outgoing channel restriction concerns the first hop of
+		// the route, which leaves the source of the search. This is not
+		// necessarily our own node, to which the bandwidth hints and the
+		// local channel rules stay tied.
+		u.outChanRestrNode = source
+
 		err := u.addGraphPolicies(g.graph)
 		if err != nil {
 			return nil, 0, err
